@@ -8,5 +8,6 @@ open Proofs.C15 TunnelModel.Generated
   for a in lockedWaitViolations accessTable do IO.println s!"WAIT-WITH-LOCK-HELD {showAccess a}"
   for r in splitSections lockSections do IO.println s!"SPLIT-CRITICAL-SECTION {r.1} accesses data protected by {r.2} in two separate critical sections (check-then-act)"
   for r in writesUnderRLock lockSections do IO.println s!"WRITE-UNDER-READ-LOCK {r.1} writes {r.2.2.2.2.1}.{r.2.2.2.2.2.1} holding {r.2.1} in read mode"
+  for a in wakeupViolations accessTable do IO.println s!"WAKEUP-UNDER-SLEEPERS-LOCK {showAccess a}"
   for a in idOrderViolations accessTable do IO.println s!"ID-ORDER {showAccess a}"
   if !acyclic lockOrderEdges then IO.println s!"LOCK-ORDER-CYCLE {lockOrderEdges}"
